@@ -131,6 +131,7 @@ func loadProgram(o loadOpts) (*Program, error) {
 			}
 		}
 	}
+	recoverRenames(p)
 	return p, nil
 }
 
@@ -161,6 +162,13 @@ func (p *Program) ModFuncs() []*ssa.Function {
 // Func looks a function or method up by package path and name.
 // name forms: "New", "(*Document).Save", "(Document).X".
 func (p *Program) Func(pkgPath, name string) *ssa.Function {
+	if f := p.funcByName(pkgPath, name); f != nil {
+		return f
+	}
+	return aliasFunc[pkgPath+"\x00"+name] // a recorded function that was renamed (roles.go)
+}
+
+func (p *Program) funcByName(pkgPath, name string) *ssa.Function {
 	sp := p.SSAPkg[pkgPath]
 	if sp == nil {
 		return nil
@@ -312,6 +320,9 @@ func calleeName(c ssa.CallInstruction) string {
 func fullName(f *ssa.Function) string {
 	if f == nil {
 		return ""
+	}
+	if c, ok := canonName[f]; ok {
+		return c
 	}
 	if o := f.Object(); o != nil {
 		if fo, ok := o.(*types.Func); ok {
